@@ -166,6 +166,31 @@ def run(E: Engine, rep: Report, tier: str) -> dict:
             rep.check(not viol, "PASS", f"{f.short}|append-dominated-by-duration-check", f"{len(apps)} slots.append site(s) dominated by the blocking _check_duration", f"a slot can be appended without the blocking sequence-duration check: {[v['event'] + ' @ ' + v['where'] for v in viol]}", E.where(f))
     if n_app < 4:
         rep.error(f"only {n_app} slots.append sites found in _Schedule (expected >= 4)")
+    # the value checked against the maximum duration IS the end time of the slot that gets scheduled
+    for mname in ("add_delay", "add_target", "make_next_pulse_slot"):
+        f = E.method(SCHED, mname)
+        flm = E.flow(f)
+        slot_tf = []
+        for n in ast.walk(f.node):
+            if isinstance(n, ast.Call) and (dotted(n.func) or "") == "_TimeSlot" and len(n.args) >= 3:
+                slot_tf.append(n)
+        checks = [e.node for _nd, _i, e in flm.all_events() if e.kind == "call" and any(c.innermost() is chk for c, _m in e.callees)]
+        ok = bool(checks) and bool(slot_tf)
+        why = ""
+        for c in checks:
+            a = c.args[0] if c.args else None
+            if not isinstance(a, ast.Name):
+                ok, why = False, f"_check_duration is applied to `{norm(a) if a is not None else '?'}`, not to the slot's end-time variable"
+                continue
+            nd_c = flm.node_of(c)
+            for sl in slot_tf:
+                b = sl.args[2]
+                nd_s = flm.node_of(sl)
+                if not (isinstance(b, ast.Name) and b.id == a.id):
+                    ok, why = False, f"the slot ends at `{norm(b)}` but `{a.id}` is what gets checked"
+                elif nd_c is not None and nd_s is not None and flm.reaching_defs(nd_c.id, a.id) != flm.reaching_defs(nd_s.id, a.id):
+                    ok, why = False, f"`{a.id}` is redefined between the duration check and the slot construction"
+        rep.check(ok, "PASS", f"_Schedule.{mname}|checked-value-is-slot-end", "the sequence-duration check is applied to the very end time stored in the new slot", f"in _Schedule.{mname} {why}: a slot ending after the device's maximum sequence duration could be scheduled", E.where(f))
     # the one appender outside the scheduler takes the literal initial slot
     ats = E.method(SEQ, "_add_to_schedule")
     for caller, e in E.callers_of(ats):
